@@ -82,10 +82,22 @@ type concCfg struct {
 	serial bool // callers wait for their reply before the next command (like pipe.Do); otherwise a
 	// caller hands the reply wait to a helper goroutine and goes on (more callers in flight)
 	timeout time.Duration
+	// staged episodes drive the queue into "all slots written and unanswered, writer parked in
+	// WaitForWrite on the oldest slot, `extra` further callers blocked on that slot" before the
+	// reader is allowed to answer anything: p = 2^k + extra callers, the first 2^k start at once
+	staged bool
+	extra  int
+}
+
+// stageInfo reports what a staged episode reached before the reader was released.
+type stageInfo struct {
+	written int  // commands handed to the writer while the reader was held back
+	parked  bool // the writer was seen sleeping in WaitForWrite (ring: a slot with slept = true)
+	tickets bool // every extra caller had taken its ticket / was blocked before the reader started
 }
 
 // runEpisode returns the merged log and whether the run completed.
-func runEpisode(cfg concCfg, seed uint64) (lines []string, hung bool) {
+func runEpisode(cfg concCfg, seed uint64) (lines []string, hung bool, st stageInfo) {
 	old := runtime.GOMAXPROCS(cfg.procs)
 	defer runtime.GOMAXPROCS(old)
 	var q *rueidis.VerifQueue
@@ -102,6 +114,15 @@ func runEpisode(cfg concCfg, seed uint64) (lines []string, hung bool) {
 	}
 	wire := make(chan int, total+1)
 	var wg sync.WaitGroup
+	var deqCount atomic.Int64
+	extraGo, readerGo := make(chan struct{}), make(chan struct{})
+	first := cfg.p
+	if cfg.staged {
+		first = 1 << uint(cfg.k)
+	} else {
+		close(extraGo)
+		close(readerGo)
+	}
 	mk := func(i uint64) *perturb {
 		return &perturb{rng: rand.New(rand.NewPCG(seed, i)), yield: cfg.yield, sleep: cfg.sleep}
 	}
@@ -112,6 +133,9 @@ func runEpisode(cfg concCfg, seed uint64) (lines []string, hung bool) {
 			defer wg.Done()
 			pt, lg := mk(uint64(o)), logs[o]
 			var inner sync.WaitGroup
+			if o >= first {
+				<-extraGo
+			}
 			for i := 0; i < cfg.per; i++ {
 				id := o*cfg.per + i
 				tag := strconv.Itoa(id)
@@ -166,6 +190,7 @@ func runEpisode(cfg concCfg, seed uint64) (lines []string, hung bool) {
 				lg.add(&seq, fmt.Sprintf("!deq %d", id))
 			}
 			wire <- id
+			deqCount.Add(1)
 		}
 	}()
 	// reader
@@ -173,6 +198,7 @@ func runEpisode(cfg concCfg, seed uint64) (lines []string, hung bool) {
 	go func() {
 		defer wg.Done()
 		pt, lg := mk(1<<21), logs[cfg.p+1]
+		<-readerGo
 		for n := 0; n < total; n++ {
 			want := <-wire
 			pt.point()
@@ -199,6 +225,49 @@ func runEpisode(cfg concCfg, seed uint64) (lines []string, hung bool) {
 			q.FinishResult()
 		}
 	}()
+	if cfg.staged {
+		// controller: fill the queue, let the writer drain it and park, block the extra callers on
+		// the oldest slot, only then let the reader answer (unsynchronised snapshot reads: the
+		// values are only used as hints, every wait is bounded)
+		waitFor := func(cond func() bool, limit time.Duration) bool {
+			end := time.Now().Add(limit)
+			for !cond() {
+				if time.Now().After(end) {
+					return false
+				}
+				time.Sleep(50 * time.Microsecond)
+			}
+			return true
+		}
+		waitFor(func() bool { return int(deqCount.Load()) >= first }, 200*time.Millisecond)
+		st.written = int(deqCount.Load())
+		if cfg.kind == "ring" {
+			st.parked = waitFor(func() bool {
+				_, _, _, _, slots := q.RingSnapshot()
+				for _, n := range slots {
+					if n.Slept {
+						return true
+					}
+				}
+				return false
+			}, 100*time.Millisecond)
+		} else {
+			time.Sleep(500 * time.Microsecond)
+			_, w, r, size, _ := q.FlowLens()
+			st.parked = w == 0 && r == size
+		}
+		close(extraGo)
+		if cfg.kind == "ring" {
+			st.tickets = waitFor(func() bool {
+				w, _, _, _, _ := q.RingSnapshot()
+				return int(w) >= first+cfg.extra
+			}, 100*time.Millisecond)
+		} else {
+			st.tickets = true
+		}
+		time.Sleep(time.Millisecond) // let the extra callers reach c1.Wait() / `<-b.f`
+		close(readerGo)
+	}
 	done := make(chan struct{})
 	go func() { wg.Wait(); close(done) }()
 	select {
@@ -266,6 +335,16 @@ func overtakes(lines []string) map[int]bool {
 // evidence (`ring:realtime-overtake`); true: reported as a failing input with a stable key.
 const strictRealTime = false
 
+func countFins(lines []string) int {
+	n := 0
+	for _, l := range lines {
+		if strings.HasPrefix(l, "!fin ") {
+			n++
+		}
+	}
+	return n
+}
+
 func runConc(c *Ctx) {
 	procsChoices := []int{1, 2, 4, runtime.NumCPU()}
 	timeout := 20 * time.Second
@@ -273,6 +352,64 @@ func runConc(c *Ctx) {
 		procsChoices = []int{1, 2, 3, 4, 8, runtime.NumCPU(), 2 * runtime.NumCPU()}
 		timeout = 60 * time.Second
 	}
+	// 1. staged episodes: full ring + writer parked + extra callers on the oldest slot, then the reader starts
+	nStaged := 24
+	stagedTimeout := 5 * time.Second
+	if c.Tier == "thorough" {
+		nStaged, stagedTimeout = 120, 10*time.Second
+	}
+	for e := 0; e < nStaged; e++ {
+		cfg := concCfg{timeout: stagedTimeout, staged: true, serial: true}
+		cfg.kind = "ring"
+		if e%4 == 3 {
+			cfg.kind = "flow"
+		}
+		cfg.k = 1 + (e/4)%3 // 2, 4, 8 slots
+		cfg.extra = 1 + c.Rng.IntN(4)
+		cfg.p = 1<<uint(cfg.k) + cfg.extra
+		cfg.per = 1 + c.Rng.IntN(4)
+		cfg.multi = []int{0, 300}[c.Rng.IntN(2)]
+		cfg.procs = procsChoices[c.Rng.IntN(len(procsChoices))]
+		seed := c.Rng.Uint64()
+		lines, hung, st := runEpisode(cfg, seed)
+		reset := fmt.Sprintf("reset conc %s staged k=%d extra=%d per=%d multi=%d procs=%d written=%d parked=%v tickets=%v", cfg.kind, cfg.k, cfg.extra, cfg.per, cfg.multi, cfg.procs, st.written, st.parked, st.tickets)
+		c.Emit(reset, "ok", false)
+		ot := overtakes(lines)
+		for i, l := range lines {
+			want := "ok"
+			if ot[i] {
+				want = "ok-overtake"
+				c.Hit(cfg.kind + ":realtime-overtake")
+			}
+			c.Emit(l, want, false)
+		}
+		reached := st.written >= 1<<uint(cfg.k) && st.parked && st.tickets
+		if reached {
+			c.Hit(cfg.kind + ":staged:full-queue-writer-parked-extra-callers")
+			key := reset + fmt.Sprint(seed)
+			if _, ok := c.distinct[key]; !ok {
+				c.distinct[key] = struct{}{}
+				c.Nontriv++
+			}
+		} else {
+			c.Hit(cfg.kind + ":staged:not-reached")
+		}
+		if hung {
+			tail := lines
+			if len(tail) > 40 {
+				tail = tail[len(tail)-40:]
+			}
+			key := "queue:hang:" + cfg.kind
+			if reached {
+				key = cfg.kind + ":deadlock:full-ring-writer-parked"
+			}
+			c.Fail(key, reset, fmt.Sprintf("deadlock with writer and reader alive: all %d slots of the %s were written and unanswered, the writer was parked in WaitForWrite on the oldest slot and %d further callers were blocked on it when the reader began to answer; %d of %d commands never completed within %v; last events: %s", 1<<uint(cfg.k), cfg.kind, cfg.extra, cfg.p*cfg.per-countFins(lines), cfg.p*cfg.per, cfg.timeout, strings.Join(tail, " | ")))
+			c.Hit(cfg.kind + ":hang")
+			return // stuck goroutines are leaked: stop the suite
+		}
+		c.Emit("!end", "ok", false)
+	}
+	// 2. random episodes
 	for e := 0; e < c.N; e++ {
 		cfg := concCfg{timeout: timeout}
 		cfg.kind = []string{"ring", "flow"}[e%2]
@@ -289,7 +426,7 @@ func runConc(c *Ctx) {
 		cfg.procs = procsChoices[c.Rng.IntN(len(procsChoices))]
 		cfg.serial = c.Rng.IntN(3) != 0
 		seed := c.Rng.Uint64()
-		lines, hung := runEpisode(cfg, seed)
+		lines, hung, _ := runEpisode(cfg, seed)
 		reset := fmt.Sprintf("reset conc %s k=%d p=%d per=%d multi=%d yield=%d sleep=%d procs=%d serial=%v", cfg.kind, cfg.k, cfg.p, cfg.per, cfg.multi, cfg.yield, cfg.sleep, cfg.procs, cfg.serial)
 		c.Emit(reset, "ok", false)
 		ot := overtakes(lines)
